@@ -69,6 +69,27 @@ CLAIMED = {
         "hooks overwritten by config_setting_set_hook are not passed to the destructor (as documented), stated in C16_set_hook.",
    technique="Coq proof (multiset conservation invariant by induction over histories) + correspondence",
    ref="5 (C16)"),
+ "C17": dict(
+   text="Coq theorems (Properties_C17.v, closed under the global context) over Cpp.v, the model of lib/libconfigcpp.c++ "
+        "written as its guards (assertType with the auto-convert escape, range tests, NULL tests) around the calls of the "
+        "modelled C functions: SettingTypeException exactly for the stored types a conversion does not accept; for integer "
+        "settings and every integer target the stored value or SettingRangeException exactly when the target cannot hold "
+        "it; every delivered value is the value of a C getter; conversions to int / long long / double succeed exactly "
+        "when config_setting_lookup_int/_int64/_float do, with the same value (auto-convert included); lookupValue and "
+        "exists never throw and Config::lookupValue(int&) is config_lookup_int; lookup / operator[] return the setting the "
+        "C function finds or the documented exception; type/format/length/index/root/name agree through the type-code "
+        "bijection; getPath() resolves back to the same setting; iteration visits every child once in order; and the "
+        "wrapper discipline: after any C++ call the hooks in the tree plus those handed to Config's destructor are the "
+        "hooks before plus the wrappers created (Permutation; by induction over histories; destruction releases all). "
+        "Tied to /repo by the cxx harness variant (one libconfig::Config, C++ and C calls on the same config_t): "
+        "histories of every modelled call compared line by line with the model and, independently, with the "
+        "documented contract replayed by pygen/gen_cpp.py; LeakSanitizer/ASan watch the wrapper objects.",
+   note="The cached Setting::_type/_format and the C++ object lifetime are not in the model (wrappers are marks in the "
+        "hook); they are covered by the correspondence and the sanitizers. operator float, getParent, Config::read/write "
+        "on FILE*, the const char* overload of lookupValue and the exception classes' own members (getPath/what) are "
+        "outside the model. Float-to-integer conversion under auto-convert is compared only where the C cast is defined.",
+   technique="Coq proof (case analysis over the guard structure; multiset invariant by induction over histories) + three-way correspondence",
+   ref="5 (C17)"),
  "C09": dict(
    text="Coq theorems (Properties_C09.v, closed under the global context) over rw_step, the model of "
         "config_read_string/config_read/config_read_file/config_write_file on one object over a virtual file system "
